@@ -1,6 +1,7 @@
 import IsoVerif.Driver.Core
 import IsoVerif.Model.Ids
 import IsoVerif.Model.IdsPrinter
+import IsoVerif.Model.IdsInput
 
 namespace IsoVerif.Driver.C17
 open Lean IsoVerif.Driver IsoVerif.Model.C17
@@ -98,7 +99,36 @@ def dumpSeq : PrintersState → List DumpCall → List Json
       let s' : PrintersState := if c.extended then ⟨st', s.printedModels, printed'⟩ else ⟨st', printed', s.printedExtended⟩
       ofList ofOutLine out :: dumpSeq s' cs
 
+/-- `[seq, kind, gene_id, transcript_id]`, kind = "gene" | "transcript" | anything else -/
+def jGtfRec (j : Json) : Except String GtfRec := do
+  let a ← j.getArr?
+  if a.size = 4 then
+    let k ← jStr a[1]!
+    let tr ← jOpt jS a[3]!
+    pure ⟨← jS a[0]!, if k = "gene" then .gene else if k = "transcript" || k = "mRNA" then .transcript else .other,
+          ← jS a[2]!, tr.getD []⟩
+  else throw "record expected"
+
+def ofGtfRec (r : GtfRec) : Json :=
+  Json.arr #[ofS r.gene, if r.kind == .gene then Json.null else ofS r.tr]
+
+/-- the sequences gffutils gave the features (the parameter of `dbOf`): `[[id, seq], ...]` -/
+def jSeqMap (j : Json) : Except String (Str → Str) := do
+  let l ← jList (jPair jS jS) j
+  pure (fun k => (l.lookup k).getD [])
+
 def ops : List (String × Handler) := [
+  ("check_gtf", fun j => do
+      let r := check (← jBool (← arg j "track")) (← jList jGtfRec (← arg j "recs"))
+      pure (Json.mkObj [("ok", ofBool r.1), ("out", ofList ofGtfRec r.2)])),
+  ("db_of", fun j => do
+      let db := dbOf (← jList jGtfRec (← arg j "recs")) (← jSeqMap (← arg j "gseq")) (← jSeqMap (← arg j "tseq"))
+      let chrs ← jList jS (← arg j "chrs")
+      pure (Json.mkObj [("accepted", ofBool (checkDb db)),
+        ("genes", ofList (fun (g : Str × Str) => Json.arr #[ofS g.1, ofS g.2]) db.genes),
+        ("transcripts", ofList (fun (g : Str × Str) => Json.arr #[ofS g.1, ofS g.2]) db.trs),
+        ("printed", ofList (fun c => Json.arr #[ofS c, ofList ofS (printedOn db c)]) chrs),
+        ("located", ofList (fun c => Json.arr #[ofS c, ofList ofS (locatedOn db c)]) chrs)])),
   ("py_int", fun j => do
       pure (match pyInt (← jS (← arg j "s")) with | none => jErr "error" | some v => ofInt v)),
   ("py_split", fun j => do
